@@ -311,6 +311,8 @@ func collectHoles(ns []ast.Node) []mutation {
 			id := fv.Interface().(*ast.Ident)
 			if id.Name != "_" {
 				ms = append(ms, mutation{p + ":ident-hole", func() { id.Name = "qn" }})
+				// an expression metavariable written in a slot that only holds a name
+				ms = append(ms, mutation{p + ":expr-hole-in-name-slot", func() { id.Name = "qx" }})
 			}
 		}
 	}
